@@ -7,7 +7,7 @@ use serde::{Deserialize, Serialize};
 use serde_json::json;
 use std::time::{Duration, Instant};
 
-pub const RULE: &str = "sessions of 3-40 commands over {isready, ucinewgame, position <generated game>, setoption (Hash 1-4, Move Overhead), go finite (depth 1-5 | movetime 5-60 ms | small clocks), go infinite, stop, quit} against the shipped binary; a third of the sessions open with the first search of the process (or of a new game) on a special root - exactly one legal move, dead material, fortress, forced mate - under each kind of go, followed by stop / isready; the driver keeps the session conforming (go/ucinewgame/position/setoption only when no bestmove is outstanding: it waits for the bestmove of a finite go, or sends stop first) and the generator chooses the timing of every command: in the same write as the previous one (stop / isready directly behind go), after 0-30 ms, or immediately after the engine's bestmove; per session a delay vector for the hook-H2 points (before the search thread takes the mutex, after the search, after bestmove is printed, after the latch is set, after ucinewgame resets the latch, before stop waits) of 0 or 15-40 ms each widens the microsecond windows. Model: every isready is answered by readyok within 10 s; every go gets exactly one bestmove (finite: by itself; infinite: after stop), never two; stop and ucinewgame return (the closing isready is answered); after quit the process exits with status 0. A missing answer is a violation only on evidence from /proc: readyok owed and the input thread asleep without CPU use for 3 s; bestmove owed and all threads asleep for 3 s; or bestmove owed and the engine still computing 30 s after a search limited to < 1 s or told to stop. Anything merely slow is inconclusive. Non-trivial = session with a go and at least one of: stop after the search ended by itself, ucinewgame between a finished search and a stop, stop in the same write as go, a command sent inside a widened H2 window; distinct by (commands, timings, delays).";
+pub const RULE: &str = "sessions of 3-40 commands over {isready, ucinewgame, position <generated game>, setoption (Hash 1-4, Move Overhead), go finite (depth 1-5 | movetime 5-60 ms | small clocks), go infinite, stop, quit} against the shipped binary; a third of the sessions open with the first search of the process (or of a new game) on a special root - exactly one legal move, dead material, fortress, forced mate - under each kind of go, followed by stop / isready; the driver keeps the session conforming (go/ucinewgame/position/setoption only when no bestmove is outstanding: it waits for the bestmove of a finite go, or sends stop first) and the generator chooses the timing of every command: in the same write as the previous one (stop / isready directly behind go), after 0-30 ms, or immediately after the engine's bestmove; per session a delay vector for the hook-H2 points (before the search thread takes the mutex, after the search, after bestmove is printed, after the latch is set, after ucinewgame resets the latch, before stop waits) of 0 or 15-40 ms each widens the microsecond windows. Model: every isready is answered by readyok within 10 s; every go gets exactly one bestmove (finite: by itself; infinite: after stop), never two; stop and ucinewgame return (the closing isready is answered); after quit the process exits with status 0. A missing answer is a violation only on evidence from /proc: readyok owed and the input thread asleep without CPU use for 3 s; bestmove owed and all threads asleep for 3 s; or bestmove owed and the engine still computing 30 s after a search limited to < 1 s or told to stop. Anything merely slow is inconclusive. A 'latch_handover' part exercises the completion latch itself (reset / set by one thread, wait by another, 20000 hand-overs per case with generated jitter): once set() has returned, wait() must return. Non-trivial = session with a go and at least one of: stop after the search ended by itself, ucinewgame between a finished search and a stop, stop in the same write as go, a command sent inside a widened H2 window; distinct by (commands, timings, delays).";
 
 #[derive(Serialize, Deserialize, Clone, Debug, PartialEq)]
 pub enum Timing {
@@ -498,5 +498,92 @@ pub fn run(run: &mut Run) -> &'static str {
         }
     });
     run.assume("schedules are sampled (timing choices + delay injection), not enumerated");
+    // The hand-over that `stop` relies on, at the latch itself: the search thread sets the latch when it
+    // is done, the input thread waits on it, ucinewgame resets it. Two real threads repeat that
+    // hand-over tens of thousands of times with generated jitter between "reset", "set" and "wait";
+    // once `set` has returned, `wait` must return (a lost wake-up leaves `stop` blocked for ever).
+    #[cfg(latch_api)]
+    {
+        use crate::engine::util::sync::LockLatch;
+        use std::sync::atomic::{AtomicU64, Ordering};
+        use std::sync::Arc;
+        let cases = run.tier.pick(32, 600);
+        let old = run.workers;
+        run.workers = 8;
+        run.proptest_part("latch_handover", RULE, (proptest::num::u64::ANY, 0u32..4), cases, |(seed, mode): &(u64, u32), st: &mut Stats| {
+            const ROUNDS: u64 = 20_000;
+            let latch = Arc::new(LockLatch::new());
+            let go = Arc::new(AtomicU64::new(0)); // round number published by the setter
+            let done = Arc::new(AtomicU64::new(0)); // last round whose wait() has returned
+            let jit = |x: &mut u64, span: u64| -> u64 {
+                *x ^= *x << 13;
+                *x ^= *x >> 7;
+                *x ^= *x << 17;
+                if span == 0 { 0 } else { *x % span }
+            };
+            let span = [0u64, 40, 400, 4000][*mode as usize];
+            let waiter = {
+                let (latch, go, done) = (latch.clone(), go.clone(), done.clone());
+                let mut x = seed ^ 0x9e37_79b9_7f4a_7c15 | 1;
+                std::thread::spawn(move || {
+                    for r in 1..=ROUNDS {
+                        while go.load(Ordering::Acquire) < r {
+                            std::hint::spin_loop();
+                        }
+                        if go.load(Ordering::Acquire) == u64::MAX {
+                            return;
+                        }
+                        for _ in 0..jit(&mut x, span) {
+                            std::hint::spin_loop();
+                        }
+                        latch.wait();
+                        done.store(r, Ordering::Release);
+                    }
+                })
+            };
+            let mut x = *seed | 1;
+            let mut failed = None;
+            for r in 1..=ROUNDS {
+                latch.reset();
+                go.store(r, Ordering::Release);
+                for _ in 0..jit(&mut x, span) {
+                    std::hint::spin_loop();
+                }
+                latch.set();
+                // set() has returned: the waiter must come back
+                let t0 = std::time::Instant::now();
+                while done.load(Ordering::Acquire) < r {
+                    if t0.elapsed() > Duration::from_secs(20) {
+                        failed = Some(r);
+                        break;
+                    }
+                    if t0.elapsed() > Duration::from_millis(2) {
+                        std::thread::sleep(Duration::from_micros(200));
+                    } else {
+                        std::hint::spin_loop();
+                    }
+                }
+                if failed.is_some() {
+                    break;
+                }
+            }
+            st.eval();
+            st.class_n("latch_handovers", failed.unwrap_or(ROUNDS));
+            st.nontrivial(&(*seed, *mode));
+            match failed {
+                None => {
+                    let _ = waiter.join();
+                    Ok(())
+                }
+                Some(r) => {
+                    // release the blocked thread so that it does not outlive the case
+                    go.store(u64::MAX, Ordering::Release);
+                    latch.set();
+                    Err(Fail::new("latch:lost_wakeup", format!("hand-over {r} (jitter 0..{span} spins): set() returned 20 s ago, the latch is set, and wait() has still not returned - `stop` would block for ever")))
+                }
+            }
+        });
+        run.workers = old;
+    }
     RULE
 }
